@@ -162,4 +162,54 @@ Fixpoint push_chunks (s : ist) (chunks : list (list Z)) : option (list event * i
       end
   end.
 
+(* ---- the inter-byte time-out (TickitTerm.input_timeout_at).  get_keys sets the deadline to
+   now + wait whenever the tokenizer answers AGAIN -- on EVERY such answer, so the wait is
+   counted from the most recent bytes -- and clears it otherwise.  Time is in microseconds;
+   [wait] is libtermkey's wait time (50 ms).  [stale] = true is the seeded variant that keeps
+   a deadline that is already running. *)
+Record tst := mkT { t_in : ist; t_deadline : option Z }.
+Definition tst0 : tst := mkT ist0 None.
+
+Variable wait : Z.
+
+Definition tpush (stale : bool) (now : Z) (ts : tst) (bytes : list Z) : option (list event * tst) :=
+  match push_bytes (t_in ts) bytes with
+  | None => None
+  | Some (evs, s') =>
+      let d := if i_armed s'
+               then (if stale then match t_deadline ts with Some d0 => Some d0 | None => Some (now + wait) end
+                     else Some (now + wait))
+               else None in
+      Some (evs, mkT s' d)
+  end.
+
+(* tickit_term_input_check_timeout_msec as the event loop polls it: -1 when no deadline runs,
+   the milliseconds left (rounded up) while it has not passed; once it has passed the partial
+   sequence is force-interpreted -- outside this model: None *)
+Definition tpoll (now : Z) (ts : tst) : option Z :=
+  match t_deadline ts with
+  | None => Some (-1)
+  | Some d => if now <? d then Some ((d - now + 999) / 1000) else None
+  end.
+
+(* chunks delivered with a gap after each, the loop polling the time-out after every gap *)
+Fixpoint timed_run (stale : bool) (now : Z) (ts : tst) (steps : list (list Z * Z))
+  : option (list event * list Z * tst) :=
+  match steps with
+  | [] => Some ([], [], ts)
+  | (c, gap) :: r =>
+      match tpush stale now ts c with
+      | None => None
+      | Some (evs, ts1) =>
+          match tpoll (now + gap) ts1 with
+          | None => None
+          | Some m =>
+              match timed_run stale (now + gap) ts1 r with
+              | None => None
+              | Some (evs2, ms, ts2) => Some (evs ++ evs2, m :: ms, ts2)
+              end
+          end
+      end
+  end.
+
 End WithTok.
